@@ -68,7 +68,14 @@ def variants(kinds=('f64', 'f32', 'int', 'complex')):
     return st.fixed_dictionaries({
         'xkind': st.sampled_from(pool), 'itype': st.sampled_from(INT_TYPES), 'layout': U.layouts, 'layout2': U.layouts,
         'pre32': st.sampled_from([False, False, True]), 'again': st.sampled_from([False, False, True]),
-        'cs_as': st.sampled_from(CONTAINERS + ['intlist', 'intarray']), 'ns_as': st.sampled_from(CONTAINERS)})
+        'cs_as': st.sampled_from(CONTAINERS + ['intlist', 'intarray']), 'ns_as': st.sampled_from(CONTAINERS),
+        # coefficients carry units: nanometres (1e-9 of a metre), picometres, or microns of a large part
+        'cscale': st.sampled_from([1.0, 1.0, 1.0, 1.0, 1e-9, 1e-12, 1e6]),
+        # all evaluation points exactly at 0 (the vertex / the centre of the interval), where parity-structured sums have roots
+        'xzero': st.sampled_from([False, False, False, False, True])})
+
+
+_CUR = {'cscale': 1.0, 'xzero': False}     # presentation options of the case being checked (set by var_of, read by the generators below)
 
 
 def var_of(case, kinds=('f64', 'f32', 'int', 'complex')):
@@ -76,6 +83,8 @@ def var_of(case, kinds=('f64', 'f32', 'int', 'complex')):
     v.update(case.get('v') or {})
     if v['xkind'] not in kinds:
         v['xkind'] = 'f64'
+    _CUR['cscale'] = float(v.get('cscale', 1.0))
+    _CUR['xzero'] = bool(v.get('xzero', False))
     return v
 
 
@@ -315,6 +324,9 @@ def make_points(seed, shape, lo, hi, edge, salt=0, edges=None, kind='f64'):
             base[0] = e[int(seed) % 2]
     if kind == 'f32':
         base = base.astype(np.float32).astype(float)     # hi may be exceeded by half a float32 ulp when it is not representable
+    if _CUR['xzero'] and lo <= 0.0 <= hi and salt == 0:
+        # every evaluated point exactly at 0; eight more points of the interval follow them in the base array and set the scale
+        base = np.concatenate([np.zeros(size), base[:8]])
     sub = base[:size]
     if isinstance(shape, str):
         return float(sub[0]), base
@@ -339,7 +351,7 @@ def shaped(full, shape):
 def coef_vector(mask, seed, salt):
     """coefficients: mask (drawn 0/1 list) times U(-1,1) values bounded away from 0"""
     r = U.rng_of(seed, salt)
-    v = r.uniform(0.2, 1.0, len(mask)) * r.choice([-1.0, 1.0], len(mask))
+    v = r.uniform(0.2, 1.0, len(mask)) * r.choice([-1.0, 1.0], len(mask)) * _CUR['cscale']
     return [float(c) if k else 0.0 for c, k in zip(v, mask)]
 
 
@@ -348,7 +360,9 @@ def masks(max_len):
     sparse = st.lists(st.sampled_from([0, 1, 1]), min_size=3, max_size=max_len).map(lambda m: m[:-1] + [1])   # highest order present
     single = st.tuples(st.integers(1, max_len), st.integers(0, max_len - 1)).map(
         lambda t: [1 if i == t[1] % t[0] else 0 for i in range(t[0])])
-    return st.one_of(dense, sparse, sparse, single, st.just([1]), st.just([1, 1]))
+    odd_only = st.integers(2, max_len).map(lambda k: [i % 2 for i in range(k)][:-1] + [1] if k % 2 == 0 else [i % 2 for i in range(k)] + [1][:0] or [0, 1])
+    parity = st.tuples(st.integers(3, max_len), st.integers(0, 1)).map(lambda t: [1 if i % 2 == t[1] else 0 for i in range(t[0])]).filter(lambda m: m[-1] == 1 or any(m))
+    return st.one_of(dense, sparse, sparse, single, st.just([1]), st.just([1, 1]), parity.map(lambda m: m if m[-1] else m[:-1]))
 
 
 def mask_class(mask):
@@ -604,7 +618,7 @@ def check_zernike(case, ctx):
                 bucket = 'zernike_nm_der:%s:%s%s' % (which, mc, suffix)
                 U.check_shape(got, np.shape(want), bucket, 'zernike_nm_der(%d,%d) %s' % (n, m, which))
                 U.check_close(got, want, rt, bucket, 'zernike_nm_der(n=%d, m=%d, norm=%s, r: %s %s) %s derivative vs complex step' % (
-                    n, m, norm, kind, shape_label(shape), which), atol=rt * float(np.max(np.abs(wfull))))
+                    n, m, norm, kind, shape_label(shape), which), atol=rt * max(float(np.max(np.abs(wfull))), 1e-6))      # floor: all base radii may be exactly 0
         res = call(ctx, mc, P.zernike_nm_der, n, m, rarg, targ, norm=norm)
         verify(res, '')
         if i == 0:
@@ -626,7 +640,7 @@ def check_zernike(case, ctx):
                 for i, which in ((0, 'radial'), (1, 'azimuthal')):
                     wfull = refs[k][i]
                     U.check_close(seq[k][i], shaped(wfull, shape), rt, 'zernike_nm_der_seq:' + which + suffix,
-                                  'zernike_nm_der_seq(%s)[%d] %s vs complex step' % (nms, k, which), atol=rt * float(np.max(np.abs(wfull))))
+                                  'zernike_nm_der_seq(%s)[%d] %s vs complex step' % (nms, k, which), atol=rt * max(float(np.max(np.abs(wfull))), 1e-6))      # floor: all base radii may be exactly 0
         seq = call(ctx, 'seq', P.zernike_nm_der_seq, nmarg, rarg, targ, norm=norm)
         verify_seq(seq, '')
         other = [tuple(e) for e in reversed(nms)] + [(2, 0)]
@@ -1045,7 +1059,7 @@ def check_conics(case, ctx):
         want = shaped(wfull, shape)
         U.check_shape(got, np.shape(want), bucket, what)
         U.check_close(got, want, rt, bucket, what + ' (c=%r, k=%r, dx=%r, dy=%r, rho: %s %s)' % (c, k, dx, dy, kind, shape_label(shape)),
-                      atol=rt * float(np.max(np.abs(wfull))))
+                      atol=rt * max(float(np.max(np.abs(wfull))), 1e-6))      # floor: all base radii may be exactly 0
 
     rc = rbase + 1j * H
     rarg = present(rho, shape, v)
